@@ -647,7 +647,11 @@ class Interp:
                     return False
                 l = r
             if unknown:
-                return Sym('(%s)' % ast.unparse(e))
+                syms = {ast.Eq: '==', ast.NotEq: '!=', ast.Lt: '<', ast.LtE: '<=', ast.Gt: '>', ast.GtE: '>=', ast.Is: 'is', ast.IsNot: 'is not', ast.In: 'in', ast.NotIn: 'not in'}
+                out = texts[0]
+                for op, t_ in zip(e.ops, texts[1:]):
+                    out += ' %s %s' % (syms[type(op)], t_)
+                return Sym('(%s)' % out)
             return result
         if isinstance(e, ast.IfExp):
             t = self.truth(self.ev(e.test, env), e.test)
